@@ -78,25 +78,38 @@ def op_names(beh):
 class Session:
     """One compiler (one flag combination) with every pool entry compiled in it."""
 
-    def __init__(self, built, pool, flags, res, ops):
+    def __init__(self, built, pool, flags, res, ops, nb=None, no_grad=False):
         self.built = built
         self.pool = pool
         self.flags = flags
         self.res = res
         self.ops = ops
-        self.compile_all()
+        self.no_grad = no_grad
+        sem, fold, opt = self.flags
+        self.compiler = TorchCompiler(semiring=sem, fold=fold, optimize=opt)
+        self.compiled = {}
+        # the base circuits first; the derived circuits are compiled later (compile_rest), after
+        # the base circuits have also been compiled in the other compilers of this replay
+        self.compile_some(range(len(pool)) if nb is None else range(nb))
 
     def fail(self, kind, **kw):
         d = {"kind": kind, "flags": list(self.flags)}
         d.update(kw)
         self.res["failures"].append(d)
 
+    def compile_rest(self):
+        self.compile_some(i for i in range(len(self.pool)) if i not in self.compiled)
+
     def compile_all(self):
         sem, fold, opt = self.flags
         self.compiler = TorchCompiler(semiring=sem, fold=fold, optimize=opt)
         self.compiled = {}
-        for i, c in enumerate(self.pool):
-            if isinstance(c, Refused):
+        self.compile_some(range(len(self.pool)))
+
+    def compile_some(self, indices):
+        for i in indices:
+            c = self.pool[i]
+            if isinstance(c, Refused) or i in self.compiled:
                 continue
             try:
                 self.compiled[i] = self.compiler.compile(c)
@@ -108,7 +121,11 @@ class Session:
         sem = self.flags[0]
         x = self.built.batch([rows[q] for q in ridx], floating=floating)
         try:
-            out = cc(x)
+            if self.no_grad:
+                with torch.no_grad():
+                    out = cc(x)
+            else:
+                out = cc(x)
         except Exception as e:  # pylint: disable=broad-except
             self.fail("eval_raise", pool=i, op=self.ops[i], batch=bname, B=len(ridx), step=step,
                       detail=repr(e)[:300])
@@ -136,6 +153,8 @@ def replay(beh, tier="quick", seed=0, opts=None):
     targets = opts.get("targets")
     h = int(beh_hash(beh), 16) + seed
     rho = adapter.RHOS[h % len(adapter.RHOS)]
+    if opts.get("sample"):
+        rho = adapter.RHOS[0]       # sampling returns one column per variable of scopes 0..D-1
     res = {"hash": beh_hash(beh), "evals": 0, "failures": [], "refused": 0, "tags": set(),
            "rho": list(rho), "notes": []}
     hist = beh.get("hist") or []
@@ -180,18 +199,22 @@ def replay(beh, tier="quick", seed=0, opts=None):
                                         "detail": f"{len(list(c.outputs))} outputs, expected {exp['nouts']}"})
     rows = built.assignments()
     floating = None if h % 2 else True
-    nrun = 0
     flag_list = pick_flags(tier, h)
     if tier != "thorough" and opts.get("flagset") == "fo4":
         flag_list = pick_flags_fo4(h, built)
-    for flags in flag_list:
-        if not admissible(flags, built):
-            continue
-        if tier != "thorough" and nrun >= opts.get("nflags", 4):
-            break
-        nrun += 1
+    flag_list = [f for f in flag_list if admissible(f, built)]
+    if tier != "thorough":
+        flag_list = flag_list[:opts.get("nflags", 4)]
+    # one compiler per flag combination; every compiler first compiles the base circuits, only
+    # then the derived circuits are compiled (each in its own compiler): a derived circuit must
+    # read the tensors of its operands as compiled in ITS compiler
+    sessions = [Session(built, pool, flags, res, ops, nb=nb, no_grad=bool(hist) and (h + k) % 2 == 0)
+                for k, flags in enumerate(flag_list)]
+    for ses in sessions:
+        ses.compile_rest()
+    for ses in sessions:
+        flags = ses.flags
         sem = flags[0]
-        ses = Session(built, pool, flags, res, ops)
         # ---------------- initial values
         if init == "const" and hist:
             pass          # the constant initialisers must already hold version 1 (C17)
@@ -224,6 +247,8 @@ def replay(beh, tier="quick", seed=0, opts=None):
                 check_grads(ses, beh, built, rows, floating, targets)
             if opts.get("query") and beh.get("qtables"):
                 check_queries(ses, beh, built, rows, h)
+            if opts.get("sample"):
+                check_sampling(ses, beh, built, rows, h, tier)
         else:
             run_history(ses, beh, built, rows, floating, h, targets)
     res["tags"] = sorted(res["tags"])
@@ -302,7 +327,12 @@ def check_addressable(ses, built):
         if not st.has_compiled_parameter(leaf.tensor):
             continue
         t, idx = st.retrieve_compiled_parameter(leaf.tensor)
-        ten = t()
+        try:
+            ten = t()
+        except Exception as e:  # pylint: disable=broad-except
+            ses.fail("registry_slice", detail=f"leaf {i}: the compiled tensor the registry points to "
+                                              f"is not usable: {e!r}"[:300])
+            continue
         nf = ten.shape[0]
         if not 0 <= idx < nf:
             ses.fail("registry_slice", detail=f"leaf {i}: fold index {idx} outside 0..{nf - 1}")
@@ -486,9 +516,8 @@ def check_queries(ses, beh, built, rows, h):
                     mt[b, built.ids[v - 1]] = True
         if max(built.ids[v - 1] for v in scope) + 1 == built.width:
             run("tensor", ridx, masks, mt)
-        # 2. one scope per row
-        if all(m != 0 for m in masks):
-            run("scopes", ridx, masks, [mask_scope(m) for m in masks])
+        # 2. one scope per row (an empty scope = nothing to marginalise for that row)
+        run("scopes", ridx, masks, [mask_scope(m) for m in masks])
         # 3. one scope, broadcast
         m0 = [m for m in valid if m != 0][(h + B) % (len(valid) - 1)]
         run("scope", ridx, [m0] * B, mask_scope(m0))
@@ -499,12 +528,95 @@ def check_queries(ses, beh, built, rows, h):
     bad_args = [Scope([built.width + 3])]
     if outside:
         bad_args.append(Scope([built.ids[outside[0] - 1]]))
+    scope_ids = {built.ids[v - 1] for v in scope}
+    holes = [i for i in range(max(scope_ids) + 1) if i not in scope_ids]
+    if holes:                      # an id below the largest one that is not a variable of the circuit
+        bad_args.append(Scope([holes[h % len(holes)]]))
+        bad_args.append([Scope([holes[0]])])
     for arg in bad_args:
         try:
             q(x, integrate_vars=arg)
             ses.fail("query_missing_rejection", detail=f"integrate_vars={arg} outside the scope was accepted")
         except Exception:  # pylint: disable=broad-except
             pass
+
+
+# ---------------------------------------------------------------------------------- sampling
+def check_sampling(ses, beh, built, rows, h, tier):
+    """SamplingQuery on base circuit 1 (one output, one unit, all variables in scope):
+    support, deterministic routing for one-hot parameters, frequencies against the exact joint."""
+    from cirkit.backend.torch.queries import SamplingQuery  # pylint: disable=import-outside-toplevel
+    if 0 not in ses.compiled:
+        return
+    exp = beh["expect"][0]
+    if exp["nouts"] != 1 or len(exp["table"][0][0]) != 1 or len(exp["scope"]) != built.V:
+        return
+    cc = ses.compiled[0]
+    p = np.array([nums.cfloat(exp["table"][q][0][0]).real for q in range(len(rows))])
+    if np.any(p < 0) or abs(p.sum() - 1.0) > 1e-12:
+        ses.fail("model_not_normalised", detail=f"sum {p.sum()}")      # machinery: wrong scheme
+        return
+    index = {tuple(r): q for q, r in enumerate(rows)}
+
+    def draw(n, sd):
+        torch.manual_seed(sd)
+        out = SamplingQuery(cc)(num_samples=n)
+        smp = out[0] if isinstance(out, tuple) else out
+        return smp
+
+    n = 3000 if tier == "quick" else 20000
+    try:
+        smp = draw(n, h % 100003)
+    except Exception as e:  # pylint: disable=broad-except
+        ses.fail("sample_raise", detail=repr(e)[:300],
+                 layer_types=sorted({type(l).__name__ for l in cc.layers}))
+        return
+    ses.res["evals"] += 1
+    if tuple(smp.shape) != (n, built.V):
+        ses.fail("sample_shape", detail=f"observed {tuple(smp.shape)} expected {(n, built.V)}")
+        return
+    arr = smp.detach().cpu().numpy()
+    if not np.all(arr == np.round(arr)):
+        ses.fail("sample_support", detail="non-integer sample values")
+        return
+
+    def counts(a):
+        c = np.zeros(len(rows))
+        bad = None
+        for r in a.astype(np.int64):
+            q = index.get(tuple(int(v) for v in r))
+            if q is None:
+                bad = r.tolist()
+            else:
+                c[q] += 1
+        return c, bad
+
+    c, bad = counts(arr)
+    if bad is not None:
+        ses.fail("sample_support", detail=f"sample {bad} is outside the domain")
+        return
+    zero_hit = [rows[q] for q in range(len(rows)) if p[q] == 0 and c[q] > 0]
+    if zero_hit:
+        ses.fail("sample_support", detail=f"samples with probability zero were drawn: {zero_hit[:3]} "
+                                          f"(expected distribution {p.tolist()})")
+        return
+
+    def deviates(cnt, m):
+        sd_ = np.sqrt(np.maximum(p * (1 - p), 0) / m)
+        return np.abs(cnt / m - p) > 6.0 * sd_ + 1e-12
+
+    if np.any(deviates(c, n)):
+        # confirm with 8 times more samples and another seed before reporting
+        try:
+            smp2 = draw(8 * n, (h + 17) % 100003).detach().cpu().numpy()
+        except Exception as e:  # pylint: disable=broad-except
+            ses.fail("sample_raise", detail=repr(e)[:300])
+            return
+        c2, bad2 = counts(smp2)
+        if bad2 is not None or np.any(deviates(c2, 8 * n)):
+            ses.fail("sample_distribution",
+                     detail=f"frequencies {(c2 / (8 * n)).round(4).tolist()} expected {p.tolist()} "
+                            f"(n={8 * n}, 6 sigma, confirmed)")
 
 
 def worker(args):
